@@ -582,11 +582,28 @@ func luaAgree(v t38.Value, j any, outer string) string {
 		}
 	case json.Number:
 		f, err := x.Float64()
-		if err == nil && v.Kind == ':' && (float64(v.Int) == math.Floor(f) || math.Abs(f) >= 9e18) {
+		if err != nil {
+			break
+		}
+		if f >= -9223372036854775808.0 && f < 9223372036854775808.0 {
+			if v.Kind == ':' && float64(v.Int) == math.Floor(f) {
+				return ""
+			}
+			break
+		}
+		// beyond int64: an integer reply cannot hold it; the number text in a
+		// bulk string (as for NaN / Inf) is what conveys the same result
+		if t, ok := bulkText(v); ok && numEq(t, string(x)) {
 			return ""
 		}
+		return fmt.Sprintf("{{%s}}script result %v is beyond the int64 range: RESP answers %s", idEvalBigNum, x, v)
 	case string:
 		if t, ok := bulkText(v); ok && lossy(t) == x {
+			return ""
+		}
+		// a nested value of a type that cannot be converted (function): RESP
+		// nests an error value, JSON the same text as a string
+		if v.Kind == '-' && strings.HasPrefix(x, "Unsupported lua type: ") && (lossy(v.Str) == oneLine(x) || lossy(v.Str) == expectedRESPErr(x, outer)) {
 			return ""
 		}
 	case []any:
@@ -637,6 +654,11 @@ func luaAgree(v t38.Value, j any, outer string) string {
 	}
 	return bad()
 }
+
+const (
+	idEvalBigNum = "resp-eval-number-beyond-int64"
+	idEvalErrOK  = "eval-error-result-ok-in-json"
+)
 
 // luaKeyAgree: a table key as RESP shows it vs the JSON member name.
 func luaKeyAgree(k t38.Value, name string) bool {
@@ -886,7 +908,13 @@ func agree(args []string, v t38.Value, r t38.JSONReply, tnt *taint) (outcome, di
 	if v.IsErr() {
 		if isEval {
 			if res, has := top["result"]; has {
-				return "err", luaAgree(v, res, outer)
+				// the script's result is an error value ({err=...} from
+				// tile38.error_reply / pcall, or an unconvertible type): RESP
+				// reports an error, JSON reports ok:true
+				if d := luaAgree(v, res, outer); d != "" {
+					return "err", d
+				}
+				return "err", fmt.Sprintf("{{%s}}RESP answers the error %q, JSON answers ok:true with result %v", idEvalErrOK, v.Str, res)
 			}
 		}
 		return "err", fmt.Sprintf("RESP says error %q but JSON says ok: %s", v.Str, r.Raw)
